@@ -13,6 +13,7 @@ import KvarnModel.Drv.C05
 import KvarnModel.Drv.C13
 import KvarnModel.Drv.C17
 import KvarnModel.Drv.C08
+import KvarnModel.Drv.C20
 /-!
 Line-protocol driver: `<group>.<fn> <arg> …` per line on stdin, one canonical line on stdout.
 Unknown or ill-formed lines answer `bad-op` — never a default.
@@ -39,6 +40,7 @@ def dispatchLine (line : String) : String :=
       | ["c13", f] => Drv.C13.handle (f :: args)
       | ["c17", f] => Drv.C17.handle' (f :: args)
       | ["c08", f] => Drv.C08.handle (f :: args)
+      | ["c20", f] => Drv.C20.handle (f :: args)
       | _ => none
     r.getD "bad-op"
 
